@@ -141,6 +141,10 @@ def gen_copy(pid, seed, consts, tier):
         g.mem_bad(MEMF)
     if pid == 'C07':
         g.mem_arena(MEMF, [1, 2, 3, 8, 17] + ([5, 9, 33] if thorough else []))
+    if pid == 'C06':
+        # the move family with overlapping operands at every byte offset (both directions, every alignment, odd and even counts):
+        # the result must be what memmove() gives
+        g.mem_arena([f for f in MEMF if fam_copy.MEM_FUNCS[f][1] == 'mmove'], [3, 5, 8, 17] + ([9, 33] if thorough else []))
     return g.cases
 
 def projection_for(pid, consts):
@@ -174,7 +178,7 @@ def oracle_for(pid, consts):
         if pid == 'C05':
             if strk: return F.oracle_C05(c, a, consts, F.violates_str(c, consts))
             return F.oracle_C05(c, a, consts, '?')
-        if pid == 'C06': return F.oracle_C06_str(c, a, consts) if strk else F.oracle_C06_mem(c, a, consts)
+        if pid == 'C06': return F.oracle_C06_str(c, a, consts) if strk else (F.oracle_C07_mem(c, a, consts) if c.meta['cls'] == 'memarena' else F.oracle_C06_mem(c, a, consts))
         if pid == 'C07': return F.oracle_C07_str(c, a, consts) if strk else F.oracle_C07_mem(c, a, consts)
         if pid == 'C08': return F.oracle_C08_str(c, a, consts) if strk else []
         return []
@@ -521,15 +525,18 @@ def sweep_batch(rep, scr, impl, consts, pid, var, tier, seed, md=None):
     if pid in ('C01', 'C03', 'C04', 'C05', 'C08'):
         # normalisation / folding with every destination size from 1 to ample: Hangul, table characters, marks
         uc = []; k = 0
-        pool = [[0xac01, 0xac01], [0xac00, 0xac01], [0xac00], [0xd7a3, 0x41], [0xe9, 0x41], [0x1e09], [0x41, 0x301, 0x327], [0x1100, 0x1161, 0x11a8], [0x3b1, 0x345], [0xdf], [0x130, 0x49], [0x1f80, 0xfb03]]
+        pool = [[0xac01, 0xac01], [0xac00, 0xac01], [0xac00], [0xd7a3, 0x41], [0xe9, 0x41], [0x1e09], [0x41, 0x301, 0x327], [0x1100, 0x1161, 0x11a8], [0x3b1, 0x345], [0xdf], [0x130, 0x49], [0x1f80, 0xfb03],
+                [0x1f82], [0x61, 0x62, 0x63, 0x1f82], [0x61, 0x1f82]]     # (a four-element decomposition at the very end: the result can fill dest exactly)
         for s in pool:
             for dmax in list(range(1, 14)) + [24]:
                 src = fam_copy.enc(s + [0], 4)
-                for mode in (0, 1):
-                    k += 1; uc.append(vlib.Case('un%d' % k, 'wcsnorm_s', [('R', b'\xee' * 8), ('R', fam_copy.garbage(rng, 4 * dmax)), ('R', src)], [(1, 0), dmax, (2, 0), mode, (0, 0), UNK],
-                                      dict(cls='sweep-uni', func='wcsnorm_s', s=s, mode=mode, gd=sweep.gd(1, 0, dmax, 4, producer=True, slack=True, writable=[(0, 0, 8)], copylike=True, readonly=[(2, 0, len(src))]))))
-                k += 1; uc.append(vlib.Case('un%d' % k, 'wcsfc_s', [('R', b'\xee' * 8), ('R', fam_copy.garbage(rng, 4 * dmax)), ('R', src)], [(1, 0), dmax, (2, 0), (0, 0), UNK],
-                                  dict(cls='sweep-uni', func='wcsfc_s', s=s, mode=-1, gd=sweep.gd(1, 0, dmax, 4, producer=True, slack=True, writable=[(0, 0, 8)], copylike=True, readonly=[(2, 0, len(src))]))))
+                # the object size unknown to the library, and known and equal to dmax elements (what the public macros pass for an array)
+                for bos in (UNK, 4 * dmax):
+                    for mode in (0, 1):
+                        k += 1; uc.append(vlib.Case('un%d' % k, 'wcsnorm_s', [('R', b'\xee' * 8), ('R', fam_copy.garbage(rng, 4 * dmax)), ('R', src)], [(1, 0), dmax, (2, 0), mode, (0, 0), bos],
+                                          dict(cls='sweep-uni', func='wcsnorm_s', s=s, mode=mode, bos=bos, gd=sweep.gd(1, 0, dmax, 4, producer=True, slack=True, writable=[(0, 0, 8)], copylike=True, readonly=[(2, 0, len(src))]))))
+                    k += 1; uc.append(vlib.Case('un%d' % k, 'wcsfc_s', [('R', b'\xee' * 8), ('R', fam_copy.garbage(rng, 4 * dmax)), ('R', src)], [(1, 0), dmax, (2, 0), (0, 0), bos],
+                                      dict(cls='sweep-uni', func='wcsfc_s', s=s, mode=-1, bos=bos, gd=sweep.gd(1, 0, dmax, 4, producer=True, slack=True, writable=[(0, 0, 8)], copylike=True, readonly=[(2, 0, len(src))]))))
         for cp in (0x41, 0xdf, 0x130, 0x1f80, 0xfb03, 0x390, 0x1e9e):
             for dmax in (1, 2, 3, 4, 5):
                 k += 1; uc.append(vlib.Case('un%d' % k, 'towfc_s', [('R', fam_copy.garbage(rng, 4 * dmax))], [(0, 0), dmax, cp, UNK],
@@ -1119,7 +1126,7 @@ def check_C16(rep, scr, tier, seed):
         for size in (1, 2, 4, 5, 8, 13) + ((255, 256, 257, 300, 513) if True else ()):
             for nm in range(0, 6 if size > 13 else (7 if tier == 'quick' else 9)):
                 pats = list(itertools.product((0, 1, 2), repeat=nm))
-                if len(pats) > 60: pats = rng.sample(pats, 60 if tier == 'quick' else 400)
+                if len(pats) > 60: pats = rng.sample(pats, min(len(pats), 60 if tier == 'quick' else 400))
                 for pat in pats:
                     n += 1; data = b''.join(key4(v, size) for v in pat) or b'\0'
                     cases.append(vlib.Case('q%d' % n, 'qsort_s', [('R', data)], [(0, 0), nm, size, UNK], {'cls': 'qsort', 'nmemb': nm, 'size': size, 'func': 'qsort_s'}))
@@ -1514,7 +1521,7 @@ def gen_conv_cases(seed, tier, consts, loc):
             cs.append(vlib.Case('v%d' % n[0], x.func, x.blocks, list(x.args) + ['E84'], m2))
     # single characters
     st = b'\0' * 16
-    for wc in chars + [0, 0x7f] + ([0x80, 0x7ff, 0x800, 0xffff, 0x10000, 0x10ffff, 0xd800] if loc == 'u8' else [0x80]):
+    for wc in chars + [0, 0x7f] + ([0x80, 0x7ff, 0x800, 0xffff, 0x10000, 0x10ffff, 0xd800] if loc == 'u8' else [0x80, 0xa0, 0xe9, 0xff, 0x100]):
         for dmax in (1, 2, 3, 4, 5, 8):
             add('wcrtomb_s', [('R', ret8), ('R', fam_copy.garbage(rng, max(dmax, 6))), ('R', st)], [(0, 0), (1, 0), dmax, wc, (2, 0), UNK], op='wcrtomb', wc=wc, dmax=dmax, kind='ok', objelems=max(dmax, 6))
             add('wctomb_s', [('R', ret8), ('R', fam_copy.garbage(rng, max(dmax, 6)))], [(0, 0), (1, 0), dmax, wc, UNK], op='wctomb', wc=wc, dmax=dmax, kind='ok', objelems=max(dmax, 6))
@@ -1529,6 +1536,11 @@ def check_C15(rep, scr, tier, seed):
         consts = constsd[var]
         for loc, locname in (('u8', 'C.UTF-8'), ('c', 'C')):
             cases = gen_conv_cases(seed, tier, consts, loc)
+            for x in cases:
+                # invalid input: dest as the constraint handler finds it (driver directive W; a handler need not return)
+                if x.meta['kind'] == 'invalid' and len(x.blocks) > 1 and 0 < x.meta.get('dmax', 0) <= 4096:
+                    unit = 4 if x.meta['op'] in ('mbstowcs', 'mbsrtowcs') else 1
+                    x.args = list(x.args) + ['W1:0:%d:%d' % (min(x.meta['dmax'] * unit, len(x.blocks[1][1])), unit)]
             oi, om = run_cases(rep, scr, impls[var], md, consts, cases, 'conv_%s_%s' % (var, loc), locale=locname)
             for x in cases:
                 a = oi.get(x.id); b = om.get(x.id); m = x.meta
@@ -1580,10 +1592,20 @@ def check_C15(rep, scr, tier, seed):
                                 elif retval != len(deliver) or got != deliver + [0]: fails.append(('wrong-conversion', 'converted %s count %d, the standard function gives %s count %d' % (got, retval, deliver + [0], len(deliver))))
                             else:
                                 if rc == 0: fails.append(('truncated-success', 'result of %d elements does not fit dmax %d but EOK was returned' % (len(deliver) + 1, m['dmax'])))
+                    if m['op'] in ('wcrtomb', 'wctomb') and m['kind'] == 'ok':
+                        # one character: the encoding of the locale (UTF-8 / ASCII), or an error for a value the locale cannot encode
+                        wc = m['wc']; cnt = int.from_bytes(a.blocks[0][:4 if m['op'] == 'wctomb' else 8], 'little', signed=True)
+                        enc1 = (list(chr(wc).encode('utf-8')) if wc <= 0x10ffff and not 0xd800 <= wc <= 0xdfff else None) if loc == 'u8' else ([wc] if wc < 0x80 else None)
+                        if enc1 is None:
+                            if rc == 0: fails.append(('invalid-accepted', 'U+%04X has no encoding in this locale (the C library fails with EILSEQ) but the call returned EOK, count %d, dest[0] = %#x' % (wc, cnt, a.blocks[1][0])))
+                        elif len(enc1) < m['dmax']:
+                            if rc != 0: fails.append(('valid-rejected', 'U+%04X (%d bytes) with dmax %d returned %d' % (wc, len(enc1), m['dmax'], rc)))
+                            elif cnt != len(enc1) or list(a.blocks[1][:len(enc1)]) != enc1: fails.append(('wrong-conversion', 'U+%04X converted to %s count %d, the standard function gives %s' % (wc, list(a.blocks[1][:len(enc1)]), cnt, enc1)))
                     if m['kind'] == 'bothnull' and rc != 400: fails.append(('null-not-reported', 'dest and src both null (dmax %d): returned %d, not ESNULLP' % (m['dmax'], rc)))
                     if m['kind'] == 'invalid':
                         if rc == 0: fails.append(('invalid-accepted', 'invalid sequence accepted'))
                         elif a.blocks[1][:1] != b'\0': fails.append(('invalid-not-cleared', 'invalid sequence: dest not cleared'))
+                        elif 'D' in a.fields.get('hw', ''): fails.append(('invalid-reported-before-clear', 'invalid sequence: the constraint handler was invoked while dest still held the converted prefix (dest is cleared only after the report; a handler that does not return leaves it)'))
                     if 'objelems' in m:   # declared dest = dmax elements; anything beyond must be untouched
                         unit = 4 if m['op'] in ('mbstowcs', 'mbsrtowcs') else 1
                         if a.blocks[1][m['dmax'] * unit:] != x.blocks[1][1][m['dmax'] * unit:]: fails.append(('write-past-dmax', 'elements beyond dest[dmax] were written (dmax %d, len %s)' % (m['dmax'], m.get('len'))))
